@@ -36,6 +36,7 @@ type GenCfg struct {
 	Shorthands  bool
 	Dot         bool
 	G           bool // \G
+	Balancing   bool // balancing groups (?<a-b>..) (outside the exact oracle)
 	MaxGroups   int
 	MaxRepBound int
 	MaxNodes    int // item budget per pattern
@@ -133,7 +134,7 @@ func nullable(t *Tree) bool {
 		return false
 	case "rep":
 		return t.N.Min == 0 || nullable(t.Kids[0])
-	case "grp", "atom", "opt":
+	case "grp", "atom", "opt", "bal":
 		return nullable(t.Kids[0])
 	case "condref":
 		return nullable(t.Kids[0]) || nullable(t.Kids[1])
@@ -201,6 +202,15 @@ func (g *Gen) item(d int) *Tree {
 		}
 		a = Grp(name, nil)
 		a.Kids = []*Tree{g.alt(d - 1)}
+	case roll < 11 && g.c.Balancing && len(g.nms) > 0 && g.chance(0.5):
+		// balancing group: pops the last capture of an existing named group (and optionally captures the interval)
+		nm := g.nms[g.pick(len(g.nms))]
+		a = T("bal", g.alt(d-1))
+		if g.chance(0.5) {
+			a.N.Nm = "-" + nm
+		} else {
+			a.N.Nm = "z" + nm + "-" + nm
+		}
 	case roll < 12:
 		a = g.seq(d-1, 2) // printed with (?: ) when quantified
 	case roll < 13 && g.c.Atomic:
@@ -447,7 +457,7 @@ func (g *Gen) sampleMatch(t *Tree, out *[]int, caps map[*Tree][]int) {
 		st := len(*out)
 		g.sampleMatch(t.Kids[0], out, caps)
 		caps[t] = append([]int{}, (*out)[st:]...)
-	case "atom", "opt":
+	case "atom", "opt", "bal":
 		g.sampleMatch(t.Kids[0], out, caps)
 	case "ref":
 		// repeat some earlier capture text
